@@ -3,5 +3,6 @@ pub mod model;
 pub mod ops;
 pub mod universe;
 pub mod stress;
+pub mod stall;
 #[cfg(not(feature = "full"))]
 pub mod miri_main;
